@@ -20,7 +20,8 @@ def query_strategy(max_points=64):
     # choice fields first, bulk last: Hypothesis zeroes late draws more often
     return st.fixed_dictionaries({
         'layout': st.sampled_from(['1d', 'scalar', 'empty', '1d', 'scalar',
-                                   '2d', '3d', 'bcast', 'len1']),
+                                   '2d', '3d', 'bcast', 'len1', 'fortran',
+                                   'transposed', 'strided']),
         'dtype': st.sampled_from(['float', 'float', 'float', 'int']),
         'dense': st.booleans(),
         'pts': st.lists(pt, min_size=6, max_size=max_points),
@@ -127,6 +128,19 @@ def materialise(spec, q):
         return x[:1], y[:1]
     if lay == '1d':
         return x, y
+    if lay in ('fortran', 'transposed'):
+        # same values as a 2-D query, but not C-contiguous in memory
+        k = max(2, int(math.sqrt(n)))
+        m = max(2, -(-n // k))
+        idx = np.arange(k * m) % n
+        X, Y = x[idx].reshape(k, m), y[idx].reshape(k, m)
+        if lay == 'fortran':
+            return np.asfortranarray(X), np.asfortranarray(Y)
+        return np.ascontiguousarray(X.T).T, np.ascontiguousarray(Y.T).T
+    if lay == 'strided':
+        xx = np.repeat(x, 2)
+        yy = np.repeat(y, 2)
+        return xx[::2], yy[::2]
     if lay == '2d':
         k = max(1, int(math.sqrt(n)))
         m = -(-n // k)
